@@ -798,6 +798,26 @@ def cross_branch_stream(rng, n):
         yield {'classes': specs, 'kinds': [kind], 'actions': acts}
 
 
+def regop_stream(rng, n):
+    """register_op() in the middle of a history, after lookups whose answers it changes"""
+    for _ in range(n):
+        specs = rng.choice([h_chain, h_mixin, h_diamond])(rng)
+        names = [c['name'] for c in specs]
+        kind = rng.choice(['registry:1', 'registry:0', 'glommer:1', 'module'])
+        op = rng.choice(['get', 'iterate', 'uop'])
+        acts = []
+        if op == 'uop':
+            acts.append({'a': 'register_op', 'reg': 0, 'op': 'uop', 'auto': rng.choice(USER_AUTOS), 'exact': True})
+        for t in rng.sample(names, rng.randint(1, len(names))):
+            acts.append({'a': 'register', 'reg': 0, 'ty': t, 'exact': rng.random() < 0.7,
+                         'kw': [[op, 'h:%s' % t]]})
+        look = [{'a': 'lookup', 'reg': 0, 'op': op, 'ty': q, 'raise': rng.random() < 0.6} for q in names]
+        acts += look
+        acts.append({'a': 'register_op', 'reg': 0, 'op': op, 'auto': rng.choice(USER_AUTOS), 'exact': False})
+        acts += [dict(a) for a in look]
+        yield {'classes': specs, 'kinds': [kind], 'actions': acts}
+
+
 def generate(rng, tier, scale, **focus):
     n = (1100 if tier == 'quick' else 25000) * scale
     maxreg = 8
@@ -805,6 +825,7 @@ def generate(rng, tier, scale, **focus):
         yield gen_case(rng, maxreg)
     yield from reregistration_stream(rng, (300 if tier == 'quick' else 5000) * scale)
     yield from cross_branch_stream(rng, (300 if tier == 'quick' else 5000) * scale)
+    yield from regop_stream(rng, (60 if tier == 'quick' else 1000) * scale)
     if tier == 'thorough' and not focus.get('no_exhaustive'):
         yield from exhaustive()
 
